@@ -107,6 +107,7 @@ structure State where
   P : Params := { committeeScoped := true, maxSlash := 0, dsPercent := 0 }
   addrOf : List (KeyId × Addr) := []
   L : Ledger := Ledger.empty
+  cd : CommitteeData := {}   -- committee data of the nested chain of the certificate-results cases
 
 def lookupQC (st : State) (id : String) : Option (Option QC) :=
   if id == "nil" then some none else (st.qcs.lookup id).map some
@@ -250,6 +251,22 @@ def step (st : State) (line : String) : State × String :=
     match r with
     | some s => (s, "ok")
     | none => (st, "bad-op")
+  | "certres" :: rest =>
+    -- a certificate-results transaction of a nested committee applied on the root chain
+    let r : Option (State × String) := do
+      let q ← (field rest "qc") >>= lookupQC st
+      let q ← q
+      let sl ← field rest "slash"
+      let slash ← if sl == "none" then some none else (parseDSList sl).map some
+      let signer ← (field rest "signer") >>= ofHex
+      let net ← (field rest "net") >>= u64
+      let coms ← (field rest "com") >>= parseComs
+      let env : Env := { networkId := net, chainId := 0, rootHeight := 0, globalMaxBlockSize := 256 * 1000 * 1000,
+                         committeeAt := fun r => coms.lookup r, minEvidenceAt := fun _ => none, alreadySlashed := fun _ _ => false }
+      match certificateResults env st.P (fun k => st.addrOf.lookup k) st.L st.cd q (signer == q.proposerKey.getD []) slash with
+      | .ok (L', cd') => pure ({ st with L := L', cd := cd' }, "ok")
+      | .error e => pure (st, s!"err:{e}")
+    r.getD (st, "bad-op")
   | "hds" :: rest =>
     -- `HandleDoubleSigners` / `HandleByzantine` with these slash recipients (`ds=none`: no slash recipients)
     let r : Option (State × String) := do
